@@ -40,6 +40,8 @@ def run(tier):
             {'label': 'foreign-pool4-cap4-L2', 'harness': HItem(pool=4, cap=4, max_list=2, patterns=('foreign',), positions=('first',)), 'monitors': mon},
             {'label': 'pretty-messages', 'harness': HItem(pool=4, cap=3, max_list=2, pretty_msgs=True), 'monitors': mon},
         ]
+    parts.append({'label': 'pretty-printed-running-orders', 'harness': HItem(pool=4, cap=3, max_list=2, pretty_states=True, pretty_msgs=True, patterns=('p-between',), positions=('second',)),
+                  'monitors': mon, 'opts': {'max_depth': 0}})
     parts.append(mixed_part(tier, mon))
     parts.append(live_part(tier, mon, spec.STORY_KINDS if 'c02' == 'c01' else spec.ITEM_KINDS))
     return runner.graph_check(
